@@ -303,7 +303,11 @@ func (s *Session) enterBlock(fr *Frame, b *ssa.BasicBlock) *State {
 				after := st.Heap[n]
 				s.nfresh++
 				r := fmt.Sprintf("r!%d", s.nfresh)
-				ax := fmt.Sprintf("(forall ((%s Int)) (! (=> (<= %s %s) (= (select %s %s) (select %s %s))) :pattern ((select %s %s))))", r, r, topEntry.S, after.S, r, before.S, r, after.S, r)
+				excl := ""
+				for _, rr := range s.scanRoots[n] {
+					excl += fmt.Sprintf(" (not (= %s %s))", r, rr.S)
+				}
+				ax := fmt.Sprintf("(forall ((%s Int)) (! (=> (and (<= %s %s)%s) (= (select %s %s) (select %s %s))) :pattern ((select %s %s))))", r, r, topEntry.S, excl, after.S, r, before.S, r, after.S, r)
 				s.assume(T{ax, SBool})
 			}
 		}
